@@ -64,6 +64,8 @@ def gen_reads(rng, env, L, n1, k):
         op = {"op": "render", "o": o, "mode": mode, "ctx": L.CTX_NAMES[rng.randrange(6)]}
         if mode == "par_own":
             op["pre"] = rng.randrange(3)
+            if rng.random() < 0.15:
+                op["fail_at"] = rng.randint(1, 3)
         ops.append(op)
     return ops
 
@@ -222,6 +224,10 @@ def one_run(seed, run, force_config=None, overrides=None, max_diag=3, seq_only=F
         res["preempt_in_lib"] = getattr(sim, "preempt_in_lib", 0)
         res["same_obj_overlap"] = same_object_overlaps(sim, program)
 
+    nfac = sum(1 for i in range(n1, n2) if program[i].get("fail_at") and isinstance(env.heap[i], lang.Failed)
+               and env.heap[i].injected)
+    if nfac:
+        res["fired"]["caller_placeholder_factory_exc"] = nfac
     bad, n_cmp, trail = compare_all(program, env, st, okw, n1, n2)
     res["n_cmp"] = n_cmp
     res["xdigest"] = runner.digest([program, config, c01.plan_shape(plan), trail, sorted(res["fired"])])
